@@ -21,9 +21,26 @@ var expectedStructs = map[string][]fieldInfo{
 	"twistPoint": {{"x", "gfP2"}, {"y", "gfP2"}, {"z", "gfP2"}, {"t", "gfP2"}},
 }
 
+// wrappers: the kyber-level point types of point.go are one-field structs around a pointer to the
+// curve / tower value (`type pointG1 struct{ g *curvePoint }`; newPointGx allocates a fresh value for
+// every wrapper and no method ever re-points `g` in the translated functions), so the translator
+// identifies a *pointGx with the object its `g` points to.
+var wrappers = map[string]string{"pointG1": "curvePoint", "pointG2": "twistPoint", "pointGT": "gfP12"}
+
+func isWrapper(t string) bool { _, ok := wrappers[t]; return ok }
+
+// under: the type of the object a pointer of (pointee) type t denotes
+func under(t string) string {
+	if u, ok := wrappers[t]; ok {
+		return u
+	}
+	return t
+}
+
 // leanType: the Lean image of a Go type (the structures are the ones of the hand model,
 // Model/Bn256Tower.lean and Model/Bn256Curve.lean: only the DATA is shared)
 func leanType(t string) string {
+	t = under(t)
 	switch t {
 	case "gfP":
 		return "α"
@@ -41,6 +58,8 @@ func leanType(t string) string {
 		return "Bool"
 	case "nat":
 		return "Nat"
+	case "int":
+		return "Int"
 	}
 	return "UNKNOWN_TYPE_" + t
 }
@@ -63,7 +82,8 @@ func fieldIndex(t, f string) int {
 // E is a Lean term. Arguments of operations are always atoms (variables, projections,
 // constants, 0, 1) or anonymous constructors of atoms: every operation result is let-bound.
 type E struct {
-	K    string // param var global proj zero one app mk deceq not and or bool testbit tproj tuple fold natadd
+	K string // param var global proj zero one app mk deceq not and or bool testbit tproj tuple fold natadd
+	//             rawlit (gfP{w0,…} literal: Args = the words) word (word I of a gfP) ofwords intlit intneg inttonat intge0 listlen
 	Name string // variable / function / field name
 	Args []*E
 	Typ  string // Go type name (gfP, gfP2, …, bool, nat) or tuple type text
@@ -104,6 +124,28 @@ type V struct {
 	typ    string
 	atom   *E   // the whole value is this term …
 	fields []*V // … or it is given field by field
+	words  []*E // … or (gfP only) word by word: gfp.go indexes the four uint64 limbs
+}
+
+// wordOf: limb j of a gfP value
+func (v *V) wordOf(j int) *E {
+	if v.words != nil {
+		return v.words[j]
+	}
+	return &E{K: "word", Args: []*E{v.atom}, I: j, Typ: "word"}
+}
+
+// withWord: the gfP value with limb j replaced
+func (v *V) withWord(j int, w *E) *V {
+	r := &V{typ: "gfP"}
+	for i := 0; i < 4; i++ {
+		if i == j {
+			r.words = append(r.words, w)
+		} else {
+			r.words = append(r.words, v.wordOf(i))
+		}
+	}
+	return r
 }
 
 func atomV(e *E) *V { return &V{typ: e.Typ, atom: e} }
@@ -151,6 +193,17 @@ func (v *V) set(path []int, nv *V) *V {
 
 // norm: eta-collapse ⟨X.x, X.y⟩ to X (Lean structures have definitional eta, this is readability only)
 func (v *V) norm() *V {
+	if v.words != nil {
+		// an array whose four limbs are limbs 0..3 of one value IS that value
+		var base *E
+		for i, w := range v.words {
+			if w.K != "word" || w.I != i || (base != nil && !sameE(base, w.Args[0])) {
+				return v
+			}
+			base = w.Args[0]
+		}
+		return atomV(base)
+	}
 	if v.fields == nil {
 		return v
 	}
@@ -181,6 +234,9 @@ func (v *V) toE() *E {
 	if v.atom != nil {
 		return v.atom
 	}
+	if v.words != nil {
+		return &E{K: "ofwords", Args: v.words, Typ: "gfP"}
+	}
 	e := &E{K: "mk", Typ: v.typ}
 	for _, f := range v.fields {
 		e.Args = append(e.Args, f.toE())
@@ -204,6 +260,7 @@ type prog struct {
 	cond   *E
 	th, el *prog
 	leaf   *leaf
+	panics string // this leaf is a Go run-time panic (index out of range): the function's value is none
 }
 
 // ---------------------------------------------------------------------------
@@ -215,6 +272,7 @@ type printer struct {
 	canon  map[string]string // let-bound names → canonical names (alias comparison)
 	ncanon int
 	glob   func(name string) string
+	opt    bool // the function can panic: results are printed as `some …`, panicking leaves as `none`
 }
 
 func (p *printer) v(name string) string {
@@ -274,6 +332,8 @@ func (p *printer) atom(e *E) string {
 		return "1"
 	case "bool":
 		return e.Name
+	case "intlit":
+		return e.Name
 	case "mk":
 		var as []string
 		for _, a := range e.Args {
@@ -319,6 +379,11 @@ func (p *printer) term(e *E) string {
 		return p.atom(e.Args[0]) + " + " + e.Name
 	case "bitlen":
 		return "Fp12.bitLen " + p.atom(e.Args[0])
+	case "zip":
+		if len(e.Args) == 1 {
+			return p.atom(e.Args[0])
+		}
+		return "List.zip " + p.atom(e.Args[0]) + " " + p.atom(e.Args[1])
 	case "tuple":
 		var as []string
 		for _, a := range e.Args {
@@ -330,6 +395,24 @@ func (p *printer) term(e *E) string {
 		return "(" + strings.Join(as, ", ") + ")"
 	case "mk":
 		return p.atom(e)
+	case "rawlit", "ofwords":
+		var as []string
+		for _, a := range e.Args {
+			as = append(as, p.term(a))
+		}
+		return "RawLimbs.ofLimbs [" + strings.Join(as, ", ") + "]"
+	case "word":
+		return "RawLimbs.word " + p.atom(e.Args[0]) + " " + fmt.Sprint(e.I)
+	case "intneg":
+		return "-" + p.atom(e.Args[0])
+	case "inttonat":
+		return "Int.toNat " + p.atom(e.Args[0])
+	case "intge0":
+		return "decide (0 ≤ " + p.atom(e.Args[0]) + ")"
+	case "listlen":
+		return "List.length " + p.atom(e.Args[0])
+	case "natlt":
+		return "decide (" + p.atom(e.Args[0]) + " < " + p.atom(e.Args[1]) + ")"
 	}
 	return p.atom(e)
 }
@@ -343,6 +426,10 @@ func (p *printer) cond(e *E) string {
 		if e.Args[0].K == "deceq" {
 			return p.atom(e.Args[0].Args[0]) + " ≠ " + p.atom(e.Args[0].Args[1])
 		}
+	case "intge0":
+		return "0 ≤ " + p.atom(e.Args[0])
+	case "natlt":
+		return p.atom(e.Args[0]) + " < " + p.atom(e.Args[1])
 	}
 	return p.term(e)
 }
@@ -368,8 +455,16 @@ func (p *printer) prog(pr *prog, ind string, sb *strings.Builder) {
 		p.prog(pr.el, ind+"  ", sb)
 		return
 	}
+	if pr.panics != "" {
+		fmt.Fprintf(sb, "%snone /- Go panics: %s -/\n", ind, pr.panics)
+		return
+	}
 	if pr.ret == nil {
 		fmt.Fprintf(sb, "%sUNFINISHED_LEAF\n", ind)
+		return
+	}
+	if p.opt {
+		fmt.Fprintf(sb, "%ssome (%s)\n", ind, p.term(pr.ret))
 		return
 	}
 	fmt.Fprintf(sb, "%s%s\n", ind, p.term(pr.ret))
@@ -384,8 +479,15 @@ func (p *printer) fold(l let, ind string, sb *strings.Builder) {
 		bs = append(bs, fmt.Sprintf("(%s : %s)", p.bindName(b.name), b.typ))
 	}
 	var body strings.Builder
+	saved := p.opt
+	p.opt = false
 	p.prog(f.Sub, ind+"    ", &body)
+	p.opt = saved
 	n := p.bindName(l.name)
+	if f.Name == "zip" { // for i := 0; i < len(a); i++ { … a[i] … b[i] … }
+		fmt.Fprintf(sb, "%slet %s := (%s).foldl (fun %s =>\n%s%s  ) %s\n", ind, n, rng, strings.Join(bs, " "), body.String(), ind, init)
+		return
+	}
 	fmt.Fprintf(sb, "%slet %s := (List.range (%s)).reverse.foldl (fun %s =>\n%s%s  ) %s\n", ind, n, rng, strings.Join(bs, " "), body.String(), ind, init)
 }
 
